@@ -56,7 +56,13 @@ COQ_ENV = "{| enums := [%s]; structs := [%s] |}" % (
 )
 
 INT_POOL = [0, 1, 7]
-STR_POOL = ["a", "b", ""]
+STR_POOL = ["a", "b", "", "\n", "\\n", "q\"", "\t", "\\"]
+PAT_STRS = ["a", "b", "a", "b", "\n", "\\n", "q\"", "\t", "\\"]  # patterns: plain strings and strings that need an escape in the source
+
+
+def goml_str(s_):
+    """the source spelling of a string literal"""
+    return '"' + s_.replace("\\", "\\\\").replace('"', '\\"').replace("\n", "\\n").replace("\t", "\\t") + '"'
 
 # -------------------------------------------------------------- patterns ---
 # pattern := ("var", n) | ("wild",) | ("lit", kind, value) | ("tuple", [p]) | ("enum", ename, idx, [p]) | ("struct", sname, [p])
@@ -76,7 +82,7 @@ def gen_pat(rng, t, depth, counter, p_leaf=0.35):
     if t == "bool":
         return ("lit", "bool", rng.random() < 0.5)
     if t == "string":
-        return ("lit", "str", rng.choice(STR_POOL[:2]))
+        return ("lit", "str", rng.choice(PAT_STRS))
     if t in INT_W:
         return ("lit", "int", rng.choice(INT_POOL[:2]))
     if t in TUPLES:
@@ -135,7 +141,7 @@ def src_pat(p, t, rng=None):
         if p[1] == "bool":
             return "true" if p[2] else "false"
         if p[1] == "str":
-            return '"%s"' % p[2]
+            return goml_str(p[2])
         return str(p[2])
     if k == "tuple":
         return "(" + ", ".join(src_pat(q, x, rng) for q, x in zip(p[1], TUPLES[t])) + ")"
